@@ -73,6 +73,17 @@ def session(ctx, *args):
             s.set_value(0 if s.str_value == "y" else 2)
             break
     k1.write_config("/m/proj/other")
+    # a second one that differs from the session's file only in which choice member is selected
+    k3 = ST.build(tid)
+    ST.apply_state(k3, slots, vals)
+    for c in k3.unique_choices:
+        vm = [m for m in c.syms if m.visibility]
+        if len(vm) > 1:
+            cur = c.selection
+            nxt = [m for m in vm if m is not cur][0]
+            nxt.set_value(2)
+            break
+    k3.write_config("/m/proj/other2")
     k = ST.build(tid)
     st, app = ui.start(k, fs)
     nodes = list(k.node_iter())
